@@ -60,6 +60,18 @@ def gen_engine_case(rng, tier, **kw):
                     late.append([i, rng.choice(cands)])
         if late:
             case["late_deps"] = late
+    if entry["form"] != "incremental" and any(nd.get("seeded") for nd in g["nodes"]) and rng.random() < 0.3:
+        # the broker of a loaded archive: a SerializedArchiveContext next to the pre-seeded values.  dr.run then leaves
+        # the direct dependencies of pre-seeded components out of the evaluation ("no need to collect them again").
+        # A pre-seeded component that is itself a direct dependency of another pre-seeded one makes that step raise
+        # KeyError on the unchanged tree (the engine's own bookkeeping, outside the statement): not generated.
+        case["serialized"] = True
+        case.pop("late_impls", None)
+        case.pop("late_deps", None)
+        for nd in g["nodes"]:
+            if nd.get("seeded"):
+                for d in G.all_deps(nd):
+                    g["nodes"][d]["seeded"] = False
     if kw.get("host_share") and rng.random() < kw["host_share"]:
         case["host"] = True               # a HostContext in the broker: datasources arm their timeout alarm
     return case
@@ -162,6 +174,18 @@ def execute(case, sleep=None, built=None, spec=None):
                     obj = None if (case.get("none_seeds") and i % 2 == 0) else ("seed", i)
                     r.seeds[i] = obj
                     broker[comps[i]] = obj
+        if case.get("serialized") and shared:
+            from insights.core.context import SerializedArchiveContext
+            broker[SerializedArchiveContext] = SerializedArchiveContext()
+            # what takes part in the evaluation: everything but the direct dependencies of pre-seeded components
+            pruned = set()
+            for i in r.seeds:
+                if i in in_graph:
+                    pruned |= set(d for d in G.all_deps(nodes[i]) if d not in r.seeds)
+                    pruned |= set(d for d in nodes[i].get("late_deps", []) if d not in r.seeds)
+            in_graph = set(in_graph) - pruned
+            r.in_graph = in_graph
+            r.pruned = pruned
         r.observer_log = []
         r.observer_excs = []
 
